@@ -250,7 +250,7 @@ def load_catalogue(props):
             pass
         for fn in sorted(os.listdir(os.path.join(rd, d))):
             if fn.endswith(".diff"):
-                muts.append(dict(id=f"refactor:{d}/{fn[:-5]}", prop=prop, benign=True, desc="independent behaviour-preserving refactoring", patch=os.path.join(rd, d, fn), base=bases.get(fn)))
+                muts.append(dict(id=f"refactor:{d}/{fn[:-5]}", prop=prop, benign=True, desc="behaviour-preserving variant written while building a rule" if fn.startswith("hand-") else "independent behaviour-preserving refactoring", patch=os.path.join(rd, d, fn), base=bases.get(fn)))
     return muts
 
 
